@@ -9,8 +9,9 @@
 #include <signal.h>
 #include <sys/time.h>
 #include <unistd.h>
+#include <sys/mman.h>
 
-#define WD_TICK_US 2000
+#define WD_TICK_US 1000
 static sigjmp_buf wd_env;
 static volatile sig_atomic_t wd_in;
 static volatile unsigned long wd_seq, wd_last;
@@ -40,6 +41,34 @@ static void wd_arm(void)
     struct itimerval it = { { 0, WD_TICK_US }, { 0, WD_TICK_US } };
     setitimer(ITIMER_REAL, &it, NULL);
     wd_set_limit_ms(wd_short_ms);
+}
+
+/* shared (all workers, all levels) set of call signatures whose hang was confirmed with the long limit */
+#define WD_NCONF 8192
+static volatile uint64_t *wd_confirmed;
+static void wd_shared_init(void)
+{
+    wd_confirmed = mmap(NULL, (WD_NCONF + 1) * sizeof(uint64_t), PROT_READ | PROT_WRITE, MAP_SHARED | MAP_ANONYMOUS, -1, 0);
+    if (wd_confirmed == MAP_FAILED) { perror("mmap"); exit(2); }
+}
+static int wd_confirmed_lookup(uint64_t sig)
+{
+    if (!wd_confirmed) return 0;
+    for (uint64_t i = sig * 0x9e3779b97f4a7c15ULL >> 51, n = 0; n < WD_NCONF; i = (i + 1) & (WD_NCONF - 1), n++) {
+        uint64_t v = wd_confirmed[i]; if (v == sig) return 1; if (v == 0) return 0;
+    }
+    return 0;
+}
+static void wd_confirmed_add(uint64_t sig)
+{
+    if (!wd_confirmed) return;
+    __atomic_add_fetch(&wd_confirmed[WD_NCONF], 1, __ATOMIC_RELAXED);
+    for (uint64_t i = sig * 0x9e3779b97f4a7c15ULL >> 51, n = 0; n < WD_NCONF / 2; i = (i + 1) & (WD_NCONF - 1), n++) {
+        uint64_t exp = 0;
+        if (wd_confirmed[i] == sig) return;
+        if (wd_confirmed[i] == 0 && __atomic_compare_exchange_n(&wd_confirmed[i], &exp, sig, 0, __ATOMIC_RELAXED, __ATOMIC_RELAXED)) return;
+        if (exp == sig) return;
+    }
 }
 
 /* hung = 1 if `stmt` was abandoned */
